@@ -279,10 +279,21 @@ func run(h hist) {
 }
 
 func main() {
-	for _, h := range hists {
+	// data: per history prim, id, withNew, nsteps, then (op, a, b, js) per step
+	i, n := 0, 0
+	for i < len(data) {
+		h := hist{prim: int(data[i]), id: int(data[i+1]), withNew: data[i+2] != 0}
+		ns := int(data[i+3])
+		i += 4
+		h.steps = make([]step, ns)
+		for k := range h.steps {
+			h.steps[k] = step{int(data[i]), int(data[i+1]), int(data[i+2]), data[i+3] != 0}
+			i += 4
+		}
 		run(h)
+		n++
 	}
-	println("END " + itoa(len(hists)))
+	println("END " + itoa(n))
 }
 `
 
@@ -518,14 +529,22 @@ func nosyncJobs(r *rand.Rand, nprog, nhist, maxSteps int) []*nosyncJob {
 }
 
 func (j *nosyncJob) files() map[string]string {
+	// a flat static array compiles fast on both sides (a nested composite literal of 10^5
+	// steps does not)
 	var b strings.Builder
-	b.WriteString("package main\n\nvar hists = []hist{\n")
-	for _, h := range j.hists {
-		fmt.Fprintf(&b, "\t{%d, %d, %v, []step{", h.Prim, h.ID, h.WithNew)
-		for _, s := range h.Steps {
-			fmt.Fprintf(&b, "{%d, %d, %d, %v}, ", s.Op, s.A, s.B, s.JS)
+	b.WriteString("package main\n\nvar data = [...]int32{\n")
+	bi := func(v bool) int {
+		if v {
+			return 1
 		}
-		b.WriteString("}},\n")
+		return 0
+	}
+	for _, h := range j.hists {
+		fmt.Fprintf(&b, "\t%d, %d, %d, %d,", h.Prim, h.ID, bi(h.WithNew), len(h.Steps))
+		for _, s := range h.Steps {
+			fmt.Fprintf(&b, " %d, %d, %d, %d,", s.Op, s.A, s.B, bi(s.JS))
+		}
+		b.WriteString("\n")
 	}
 	b.WriteString("}\n")
 	return map[string]string{"main.go": nosyncMain, "hists.go": b.String(), "impl_js.go": nosyncImplJS, "impl_native.go": nosyncImplNative}
